@@ -8,6 +8,7 @@ package sched
 import (
 	"fmt"
 	"sync"
+	"time"
 
 	"github.com/zitadel/saml/pkg/vhook"
 )
@@ -44,6 +45,8 @@ type Exec struct {
 	Panics      []any   // per thread (nil = none)
 	Deadlock    bool
 	Horizon     bool
+	Stuck       bool   // the running thread neither reached a scheduling point nor finished within the watchdog time:
+	StuckAt     string // it blocks on something the scheduler does not see (label of its last point)
 	Preemptions int
 }
 
@@ -57,6 +60,11 @@ type runner struct {
 
 var active *runner // one execution at a time per process
 
+// Watchdog is the time a thread may run between two scheduling points (normal: microseconds to milliseconds).
+var Watchdog = 20 * time.Second
+
+var watchdog *time.Timer
+
 // CurrentThread returns the id of the running scheduler thread (-1 when no scheduler is active).
 func CurrentThread() int {
 	if r := active; r != nil && r.cur != nil {
@@ -65,9 +73,16 @@ func CurrentThread() int {
 	return -1
 }
 
+// Fine selects statement granularity: the "s:" points the overlay puts before every statement of every
+// repository function are scheduling points too. Off: function entries, storage calls, sync operations only.
+var Fine bool
+
 func (r *runner) point(label string) {
 	t := r.cur
 	if t == nil {
+		return
+	}
+	if !Fine && len(label) > 1 && label[0] == 's' && label[1] == ':' {
 		return
 	}
 	t.label = label
@@ -125,6 +140,7 @@ func Run(sc Scenario, prefix []int, horizon int) *Exec {
 		}()
 	}
 	active = r
+	vhook.ResetChans()
 	vhook.PointFn = r.point
 	vhook.BlockFn = r.block
 	vhook.GoFn = r.spawn
@@ -187,7 +203,24 @@ func Run(sc Scenario, prefix []int, horizon int) *Exec {
 		r.cur = t
 		x.Trace = append(x.Trace, Step{t.id, t.label})
 		t.resume <- struct{}{}
-		<-r.yield // the thread parked again or finished (or a spawned thread cannot yield before being resumed)
+		// the thread parks again or finishes. A thread that blocks on something the overlay does not route through
+		// the scheduler (range over a channel, third-party locks, real I/O) would hang the exploration: watchdog.
+		if watchdog == nil {
+			watchdog = time.NewTimer(Watchdog)
+		} else {
+			watchdog.Reset(Watchdog)
+		}
+		select {
+		case <-r.yield:
+			if !watchdog.Stop() {
+				<-watchdog.C
+			}
+		case <-watchdog.C:
+			x.Stuck, x.StuckAt = true, t.label
+		}
+		if x.Stuck {
+			break
+		}
 		r.cur = nil
 		steps++
 		if steps > horizon {
@@ -195,7 +228,7 @@ func Run(sc Scenario, prefix []int, horizon int) *Exec {
 			break
 		}
 	}
-	if x.Horizon || x.Deadlock {
+	if x.Horizon || x.Deadlock || x.Stuck {
 		// leak the parked goroutines of this execution (they hold no locks the next execution needs)
 	}
 	for _, t := range r.threads {
@@ -216,6 +249,8 @@ type Explorer struct {
 	Points    int64
 	MaxDepth  int
 	Truncated bool
+	Stuck     bool
+	StuckAt   string
 }
 
 // Explore enumerates every schedule whose preemption count is within the bound, starting from prefix.
@@ -231,6 +266,11 @@ func (e *Explorer) Explore(prefix []int) {
 		e.MaxDepth = len(x.Choices)
 	}
 	e.Check(x, x.Choices)
+	if x.Stuck {
+		// the stuck goroutine may wake up later and would then run unscheduled: stop exploring in this process
+		e.Truncated, e.Stuck, e.StuckAt = true, true, x.StuckAt
+		return
+	}
 	// preemptions used before decision i
 	pre := 0
 	used := make([]int, len(x.Choices)+1)
